@@ -45,9 +45,9 @@ CONF = {
         "thorough": {"rapid": [("TestC15", 5000, 16)], "cover": ("TestC15", 1500)},
     },
     "C19": {
-        "rule": "rapid histories (4..28 ops) of registry transactions over colliding-prone keys (same token under other domains, tokens one byte apart, denoms differing in case, attester spellings of one key) from genesis states with >=3 entries per registry; after every transaction: exported registries vs reference maps, single-item queries for every live entry (token pairs under 6 hex spellings) and for every named-but-absent key, all scalar queries; every 4th step: pagination sweeps of the five list queries for every page size 1..n+1 in key-cursor and offset mode, forward and reverse, total with count_total; non-trivial = case with a removal, a registry of >=3 entries and a sweep; distinct by op/outcome sequence",
-        "quick": {"rapid": [("TestC19", 100, 4)]},
-        "thorough": {"rapid": [("TestC19", 1500, 16)]},
+        "rule": "rapid histories (4..28 ops) of registry transactions over colliding-prone keys (same token under other domains, tokens one byte apart, denoms differing in case, attester spellings of one key) from genesis states with >=3 entries per registry; after every transaction: exported registries vs reference maps, single-item queries for every live entry (token pairs under 6 hex spellings) and for every named-but-absent key, all scalar queries; every 4th step: pagination sweeps of the five list queries for every page size 1..n+1 in key-cursor mode (with and without count_total) and offset mode, forward and reverse, total with count_total; plus one deterministic sweep over registries of 1003..1207 entries with page sizes around 100, 1000, the registry size and 'everything' (TestC19Big); non-trivial = case with a removal, a registry of >=3 entries and a sweep; distinct by op/outcome sequence",
+        "quick": {"rapid": [("TestC19", 100, 4)], "plain": ["TestC19Big"]},
+        "thorough": {"rapid": [("TestC19", 1500, 16)], "plain": ["TestC19Big"]},
     },
     "C10": {
         "rule": "(a) bounded-exhaustive: all 4^4 assignments of owner/attester-manager/pauser/token-controller over 4 accounts x pending owner in {absent, each account} x 18 privileged types (valid arguments) x 4 submitters, each run through the real message router on a branch of the committed state that is diffed and discarded; oracle: success <=> submitter holds the matching role, failure => no store changed; (b) rapid histories of role changes and privileged actions over a 7-account universe (previous holders arise naturally); non-trivial = submitter is authorised, or holds another role, or is a previous holder; distinct by (roles, pending, type, submitter) resp. (class, type, submitter)",
@@ -91,9 +91,9 @@ CONF = {
         "thorough": {"rapid": [("TestC09", 10000, 16)]},
     },
     "C02": {
-        "rule": "rapid-generated L2 histories (3..30 ops: fresh receives with 0..4 broken conditions, replays of earlier successes varying body/recipient/caller/attestation encoding/submitter/sender, pause, attester rotation, threshold change, un/re-link, messenger add/remove, multi-message transactions; genesis may pre-list pairs); after every transaction the single-item query of every tracked pair and its neighbours (swapped, +1, shifted), the full list query and the exported list are compared with the model set; non-trivial = history with a replay that is valid in every respect except the nonce of an earlier success; distinct by sequence of op labels and outcomes",
-        "quick": {"rapid": [("TestC02", 200, 3)]},
-        "thorough": {"rapid": [("TestC02", 2500, 16)]},
+        "rule": "rapid-generated L2 histories (3..30 ops: fresh receives with 0..4 broken conditions, replays of earlier successes varying body/recipient/caller/attestation encoding/submitter/sender, pause, attester rotation, threshold change, un/re-link, messenger add/remove, multi-message transactions; genesis may pre-list pairs); after every transaction the single-item query of every tracked pair and its neighbours (swapped, +1, shifted), the full list query and the exported list are compared with the model set; one deterministic case with 1207 used pairs walks the listing with page sizes around 100, 1000, 1207 and 'everything' (TestC02Big); non-trivial = history with a replay that is valid in every respect except the nonce of an earlier success; distinct by sequence of op labels and outcomes",
+        "quick": {"rapid": [("TestC02", 200, 3)], "plain": ["TestC02Big"]},
+        "thorough": {"rapid": [("TestC02", 2500, 16)], "plain": ["TestC02Big"]},
     },
     "C03": {
         "rule": "rapid-generated receive attempts (a) bounded-exhaustive: all 2^12 subsets of {P1,P2,P4,P5,P6,P7,M1..M6} x 4 value realisations for module-addressed messages, all 2^6 subsets of the P conditions x 4 for other recipients, all 116 header truncations, each through the real message router on a discarded branch (success <=> empty subset; failure => no store changed); (b) inside L2 histories (admin/ledger ops change pause flags, attesters, pairs, messengers, allowance, blacklist, minter status); each attempt falsifies a drawn subset of {P2..P7,M2..M6} with several realisations per condition and P1/M1/M6 through state; oracle: success <=> all applicable conditions (recomputed from bytes and model state, attestation by the independent verifier); non-trivial = attempt with a >=116-byte message whose condition vector was not seen before in the case; distinct by condition vector",
